@@ -33,8 +33,9 @@ RULE = ("random include trees in a temporary directory tree (1-9 files, nested d
         "path or after chdir): force-field part with [defaults]/[atomtypes]/[nonbond_params]/five kinds of type "
         "tables, #define before/after use, #ifdef/#ifndef/#else/#endif around includes, type lines and #error "
         "(active and inactive), molecule part with 1-5 moleculetypes over several files (conditionals inside "
-        "moleculetypes), [molecules] with repeated names and counts 0-3, random blank lines / comments / star "
-        "comments / extra whitespace; plus a malformed stream (missing file, unclosed or stray conditionals, "
+        "moleculetypes, the same relative include name in sibling directories resolving to different files), "
+        "[molecules] with repeated names and counts 0-3, random blank lines / comments / star comments / blanks and "
+        "tabs before, inside and after every kind of line incl. #include/#define/#ifdef/#error; plus a malformed stream (missing file, unclosed or stray conditionals, "
         "nested conditionals, unknown pragma/section, misformatted header, unknown molecule, bad count, "
         "Buckingham, include cycle).  distinct = hash of the file tree; a case is non-trivial when it has >= 1 include")
 
@@ -80,7 +81,8 @@ class Tree:
             if "/" in rel:
                 rel = first + "/../" + rel            # dir/../dir/file : the directory exists
         quote = '"' if rng.random() < 0.85 else ""
-        return "#include %s%s%s" % (quote, rel, quote)
+        sep = rng.choice([" ", " ", " ", "  ", "\t", "   ", " \t"])
+        return "#include%s%s%s%s" % (sep, quote, rel, quote)
 
     # ---- units
     def unit_defaults(self):
@@ -240,6 +242,22 @@ class Tree:
                     self.expect_abort = True
         return out
 
+    def sibling_molecule_files(self, frm):
+        """two or three directories, each with `mol.itp` that includes ITS OWN `local.itp` by the same relative name"""
+        rng = self.rng
+        self.counter += 1
+        out = []
+        for tag in rng.sample(["A", "B", "C"], rng.randint(2, 3)):
+            directory = "sib%d/mol%s" % (self.counter, tag)
+            local = directory + "/local.itp"
+            self.files[local] = self.unit_types() + (self.unit_nonbond() if rng.random() < 0.4 else [])
+            path = directory + "/mol.itp"
+            lines = ['#include "local.itp"'] if rng.random() < 0.7 else ['#include "./local.itp"']
+            lines += self.unit_molecule()
+            self.files[path] = lines
+            out.append(self.include_line(frm, path))
+        return out
+
     def molecule_file(self, path, depth):
         rng = self.rng
         lines = []
@@ -283,6 +301,8 @@ def gen_tree(rng, malformed=None, shape=None):
             child = tree.fresh(rng.choice(["mols", "mols/lipids", ""]), "mol")
             tree.molecule_file(child, 1)
             lines.append(tree.include_line(top, child))
+    if rng.random() < 0.35:
+        lines += tree.sibling_molecule_files(top)
     if not tree.molnames:
         lines += tree.unit_molecule()
     lines += ["[ system ]", "a generated system"]
@@ -380,7 +400,7 @@ def noisy(rng, lines):
         if rng.random() < 0.2:
             out.append(rng.choice(["", "   ", "; a comment line", "\t; indented comment", "* a star comment"]))
         toks = line.split()
-        if line.startswith("#include") or not toks:
+        if not toks:
             text = line
         elif line.startswith("["):
             # only blanks inside the brackets: the reader strips '[', ']' and ' ' (a tab there is the finding
@@ -389,7 +409,7 @@ def noisy(rng, lines):
         else:
             text = rng.choice(["", " ", "\t", "   "]) + rng.choice([" ", "  ", "\t", " \t "]).join(toks)
         if rng.random() < 0.3:
-            text += rng.choice(["  ", "\t", " ; trailing comment", ";x"])
+            text += rng.choice(["  ", "\t", " \t ", " ; trailing comment", "\t; c", ";x"])
         out.append(text)
     return out
 
